@@ -390,7 +390,11 @@ func execIVF(c *ivfCase) []string {
 		return append(lines, cmpLine(), listsLine())
 	}
 
-	search := func(cmd ivfCmd, q []float32, thr float32, p int, pDefault bool) string {
+	// search objects are executed at once, at once and again after the next Train / Add / Remove /
+	// Flush, or only after it (rexec.go); the search line is emitted where the Execute happens (the
+	// flat index's answer that travels along is asked for at that moment too)
+	var rex rexQueue
+	search := func(cmd ivfCmd, q []float32, thr float32, p int, pDefault bool) {
 		build := func(s comet.VectorSearch) comet.VectorSearch {
 			s = s.WithQuery(append([]float32(nil), q...)).WithK(cmd.K).WithThreshold(thr).
 				WithScoreAggregation(comet.ScoreAggregationKind(cmd.Agg))
@@ -415,24 +419,26 @@ func execIVF(c *ivfCase) []string {
 			_, _ = s.WithQuery(w).Execute()
 			s = s.WithQuery(append([]float32(nil), q...))
 		}
-		res, err := s.Execute()
-		out := ""
-		if err != nil {
-			out = "err " + vecErr(err)
-		} else {
-			out = hitsLine(res)
-			if !pDefault && (p <= 0 || p >= c.Nlist) {
-				// the flat index holds the same data: its answer to the same search
-				fres, ferr := build(flat.NewSearch()).Execute()
-				if ferr != nil {
-					out += " | err " + vecErr(ferr)
-				} else {
-					out += " | " + hitsLine(fres)
+		rex.next(func() {
+			res, err := s.Execute()
+			out := ""
+			if err != nil {
+				out = "err " + vecErr(err)
+			} else {
+				out = hitsLine(res)
+				if !pDefault && (p <= 0 || p >= c.Nlist) {
+					// the flat index holds the same data: its answer to the same search
+					fres, ferr := build(flat.NewSearch()).Execute()
+					if ferr != nil {
+						out += " | err " + vecErr(ferr)
+					} else {
+						out += " | " + hitsLine(fres)
+					}
 				}
 			}
-		}
-		return fmt.Sprintf("op search %s %d %s %s %s %s => %s", ptok, cmd.K, core.Hex32(thr),
-			core.IDs(cmd.Filter), cmd.Agg, core.VecHex(q), out)
+			lines = append(lines, fmt.Sprintf("op search %s %d %s %s %s %s => %s", ptok, cmd.K, core.Hex32(thr),
+				core.IDs(cmd.Filter), cmd.Agg, core.VecHex(q), out))
+		})
 	}
 
 	for _, cmd := range c.Cmds {
@@ -459,6 +465,7 @@ func execIVF(c *ivfCase) []string {
 				}
 			}
 			lines = append(lines, b.String())
+			rex.run()
 		case "add":
 			raw := core.FromBits(cmd.Vec)
 			wasTrained := trained()
@@ -488,14 +495,17 @@ func execIVF(c *ivfCase) []string {
 				flat.Add(*comet.NewVectorNodeWithID(cmd.ID, append([]float32(nil), raw...)))
 			}
 			lines = afterOp(append(lines, fmt.Sprintf("op add %d %s => %s", cmd.ID, core.VecHex(raw), out)))
+			rex.run()
 		case "remove":
 			err := idx.Remove(*comet.NewVectorNodeWithID(cmd.ID, nil))
 			flat.Remove(*comet.NewVectorNodeWithID(cmd.ID, nil))
 			lines = afterOp(append(lines, fmt.Sprintf("op remove %d => %s", cmd.ID, vecErr(err))))
+			rex.run()
 		case "flush":
 			err := idx.Flush()
 			flat.Flush()
 			lines = afterOp(append(lines, "op flush => "+vecErr(err)))
+			rex.run()
 		case "lists":
 			lines = append(lines, listsLine())
 		case "search", "sweep":
@@ -526,15 +536,16 @@ func execIVF(c *ivfCase) []string {
 				}
 			}
 			if cmd.Op == "search" {
-				lines = append(lines, search(cmd, q, thr, cmd.P, cmd.PDefault))
+				search(cmd, q, thr, cmd.P, cmd.PDefault)
 			} else {
 				for p := -1; p <= c.Nlist+1; p++ {
-					lines = append(lines, search(cmd, q, thr, p, false))
+					search(cmd, q, thr, p, false)
 				}
-				lines = append(lines, search(cmd, q, thr, 0, true))
+				search(cmd, q, thr, 0, true)
 			}
 		}
 	}
+	rex.run()
 	return append(lines, "end")
 }
 
